@@ -324,7 +324,11 @@ pub fn compile_mir_to_lir(heap: &mut Heap, sources: mir::Sources) -> lir::Source
   let mut types_needing_any_pointer: TypesNeedingAnyPointer = HashSet::new();
   for type_def in &type_definitions {
     if let mir::TypeDefinitionMappings::Enum(variants) = &type_def.mappings {
-      let has_i31_variant = variants.iter().any(|v| matches!(v, mir::EnumTypeDefinition::Int31));
+      // An unboxed variant is the payload's own object, which is not a subtype of the enum's
+      // struct type either.
+      let has_i31_variant = variants.iter().any(|v| {
+        matches!(v, mir::EnumTypeDefinition::Int31 | mir::EnumTypeDefinition::Unboxed(_))
+      });
       if has_i31_variant {
         types_needing_any_pointer.insert(type_def.name);
       }
